@@ -21,6 +21,7 @@ def run(ck, fb):
     r08l(ck, fb)
     r08m(ck, fb)
     r08n(ck, fb)
+    r08q(ck, fb)
     ck.borrow('rules.c01', {'R01ac': 'R08p'}, 'a late joiner is filled from a snapshot: it must list the namespaces in the order the leader serves them')
     ck.borrow('rules.c05', {'R05h': 'R08i'}, 'the membership saved when a snapshot is installed must be the one recorded in that snapshot')
 
@@ -444,3 +445,27 @@ def r08n(ck, fb, R='R08n'):
                    'without storing the record (%s) - a node that already holds the namespace keeps its old name when a snapshot is installed, and '
                    'serves the new one only after a restart' % (flags or 'no constant flags', sn.where(esc[0]) if esc else ''),
                    'with %s every path from the lookup stores the record' % flags)
+
+
+def r08q(ck, fb, R='R08q'):
+    ck.rule(R, 'a snapshot file has one writer: a local compaction (NewSnapshot) and an incoming installation (NewSnapshotForLoad) each get an id from '
+               'RaftSnapshotManager::get_next_id, and the id names the file. An id is handed out once: on the path that answers with an id, '
+               'get_next_id (or the handler arm around it) records the allocation in a field of the manager before the next request is handled. '
+               'Computing "last catalogued id + 1" without recording it gives a compaction that is still writing and an installation that arrives '
+               'meanwhile the same snapshot_<id>: the installation is applied from a file two writers share, and the local CompleteSnapshot is '
+               'catalogued after it as the newest snapshot (catalogue [(1,6000),(1,3000)]; after a restart about 2999 of 3000 keys are gone)')
+    SM = 'rnacos::raft::filestore::raftsnapshot::RaftSnapshotManager'
+    g = ck.body(SM + '::get_next_id', R)
+    if not g:
+        return
+    writes = [(o, f) for x in util.region(fb, g, 1) for (o, f, bb, st) in x.field_writes() if o.endswith('RaftSnapshotManager')]
+    h = fb.bodies.get('<%s as actix::Handler<rnacos::raft::filestore::raftsnapshot::RaftSnapshotRequest>>::handle' % SM)
+    arm_writes = []
+    if h is not None:
+        t = Taint(h, call_src=lambda term: (cfg.callee_name(term) or '').endswith('RaftSnapshotManager::get_next_id'))
+        for (o, f, bb, st) in h.field_writes():
+            if o.endswith('RaftSnapshotManager') and any(t.op_tainted(x) for x in __import__('rn.facts', fromlist=['rv_operands']).rv_operands(st['rv'])):
+                arm_writes.append(f)
+    ck.require(bool(writes) or bool(arm_writes), R, 'get_next_id:allocation-recorded', g.where(),
+               'get_next_id answers "last catalogued id + 1" and records nothing (the `building` guard it tests is never set): a local compaction that is still '
+               'writing and an installation that arrives meanwhile get the same id, i.e. the same file', 'allocation recorded in %s' % sorted(set([f for (o, f) in writes] + arm_writes)))
